@@ -477,15 +477,37 @@ pub fn rlp_encode(bits: u32, x: &BigUint, list_with: Option<&BigUint>) -> Option
 
 /// RLP list of n integers through `RlpStream::new_list(n)` + n appends; returns the bytes and, for decodable
 /// widths, the values read back with `Rlp::val_at(i)`.
-pub fn rlp_list_roundtrip(bits: u32, items: &[BigUint]) -> Option<Result<(Vec<u8>, Option<Vec<BigUint>>), PanicInfo>> {
+/// `route` picks one of four equivalent ways of writing the list (bounded stream, `encode_list`, `begin_list` on an
+/// empty stream, unbounded list) and of reading it back (`val_at`, `as_list`, `iter` + `as_val`, `at` + `as_val`).
+pub fn rlp_list_roundtrip(bits: u32, items: &[BigUint], route: u8) -> Option<Result<(Vec<u8>, Option<Vec<BigUint>>), PanicInfo>> {
     with_der_type!(bits, T, {
         let vals: Vec<T> = items.iter().map(|x| uint_from_big::<T>(x, (bits / 8) as usize)).collect();
-        let g = guard(|| {
-            let mut s = rlp::RlpStream::new_list(vals.len());
-            for v in &vals {
-                s.append(v);
+        let g = guard(|| match route % 4 {
+            0 => {
+                let mut s = rlp::RlpStream::new_list(vals.len());
+                for v in &vals {
+                    s.append(v);
+                }
+                s.out().to_vec()
             }
-            s.out().to_vec()
+            1 => rlp::encode_list::<T, T>(&vals).to_vec(),
+            2 => {
+                let mut s = rlp::RlpStream::new();
+                s.begin_list(vals.len());
+                for v in &vals {
+                    s.append(v);
+                }
+                s.out().to_vec()
+            }
+            _ => {
+                let mut s = rlp::RlpStream::new();
+                s.begin_unbounded_list();
+                for v in &vals {
+                    s.append(v);
+                }
+                s.finalize_unbounded_list();
+                s.out().to_vec()
+            }
         });
         let bytes = match g {
             Guarded::Done(b) => b,
@@ -497,7 +519,12 @@ pub fn rlp_list_roundtrip(bits: u32, items: &[BigUint]) -> Option<Result<(Vec<u8
             let b2 = bytes.clone();
             match guard(move || {
                 let r = rlp::Rlp::new(&b2);
-                (0..n).map(|i| r.val_at::<D>(i).map(|v| val(&v))).collect::<Result<Vec<_>, _>>().ok()
+                match route % 4 {
+                    0 => (0..n).map(|i| r.val_at::<D>(i).map(|v| val(&v))).collect::<Result<Vec<_>, _>>().ok(),
+                    1 => r.as_list::<D>().ok().map(|l| l.iter().map(val).collect()),
+                    2 => r.iter().map(|it| it.as_val::<D>().map(|v| val(&v))).collect::<Result<Vec<_>, _>>().ok(),
+                    _ => (0..n).map(|i| r.at(i).and_then(|it| it.as_val::<D>()).map(|v| val(&v))).collect::<Result<Vec<_>, _>>().ok(),
+                }
             }) {
                 Guarded::Done(v) => v,
                 Guarded::Panic(p) => return Some(Err(p)),
@@ -849,24 +876,27 @@ fn exec(plan: &Plan, out: &mut RunOut) {
                                 );
                             }
                             // lists of three and four integers, with a zero at a non-final position
-                            for items in [vec![x.clone(), BigUint::zero(), y.clone()], vec![BigUint::zero(), y.clone(), x.clone(), BigUint::zero()]] {
-                                match rlp_list_roundtrip(bits, &items) {
+                            let route0 = (x.iter_u64_digits().next().unwrap_or(0) % 4) as u8;
+                            for (k, items) in [vec![x.clone(), BigUint::zero(), y.clone()], vec![BigUint::zero(), y.clone(), x.clone(), BigUint::zero()]].into_iter().enumerate() {
+                                let route = route0 + k as u8;
+                                out.count(&format!("probe:rlp-list-route-{}", route % 4));
+                                match rlp_list_roundtrip(bits, &items, route) {
                                     Some(Ok((got, back))) => {
                                         let want = rlp_list_reference(&items);
                                         out.ev(&format!("enc/rlp-list{}/{}/{}", items.len(), bits, got.len()));
                                         if got != want {
                                             out.viol(
                                                 "C18/rlp-encode-noncanonical",
-                                                format!("w{}:list{}", bits, items.len()),
+                                                format!("w{}:list{}:route{}", bits, items.len(), route % 4),
                                                 format!("list {:?} encoded as {}, canonical {}", items, hex(&got[..got.len().min(40)]), hex(&want[..want.len().min(40)])),
                                                 None,
                                             );
                                         } else if let Some(back) = back {
                                             if back != items {
-                                                out.viol("C18/rlp-wrong-value", format!("Rlp::val_at:list{}", items.len()), format!("list {:?} read back as {:?}", items, back), None);
+                                                out.viol("C18/rlp-wrong-value", format!("rlp-list{}:read-route{}", items.len(), route % 4), format!("list {:?} read back as {:?}", items, back), None);
                                             }
                                         } else if RLP_DEC_WIDTHS.contains(&bits) {
-                                            out.viol("C18/rlp-rejects-good", format!("Rlp::val_at:list{}:w{}", items.len(), bits), format!("canonical list {:?} could not be read back", items), None);
+                                            out.viol("C18/rlp-rejects-good", format!("rlp-list{}:read-route{}:w{}", items.len(), route % 4, bits), format!("canonical list {:?} could not be read back", items), None);
                                         }
                                         out.count("probe:rlp-list-of-3-and-4");
                                     }
